@@ -9,3 +9,7 @@ package main
 // path and never unlocked when not held. activeBuild has its own mutex for its plugin/callback state.
 //@ protect service-tables C20: type=serviceType ; fields=callbacks,activeBuilds,nextRequestID ; mutex=mutex ; in=main
 //@ protect active-build-state C20: type=activeBuild ; fields=rebuildWaitGroup,withinRebuildCount,didGetCancel,ctx ; mutex=mutex ; in=main
+
+// C20: the service's keep-alive accounting: a request is counted as in flight (Add) by the packet reader BEFORE the
+// worker goroutine that will signal Done is started; otherwise the final Wait can pass while a request is being served.
+//@ waitgroup announce-before-start-service C20: in=main ; func=(*serviceType).handleIncomingPacket ; only=service.keepAliveWaitGroup
